@@ -111,5 +111,8 @@ func (h Handler) HandleIQ(iq stanza.IQ, r xmlstream.TokenReadEncoder, start *xml
 	if !found && start.Name.Local == "unblock" && h.UnblockAll != nil {
 		h.UnblockAll()
 	}
-	return nil
+	// The command was processed: acknowledge it (XEP-0191 §3.3 and §3.4),
+	// otherwise the session answers it with a service-unavailable error.
+	_, err = xmlstream.Copy(r, iq.Result(nil))
+	return err
 }
